@@ -108,10 +108,18 @@ pub async fn add_node(
     let mut added_service_data = vec![];
     let mut failed_service_data = vec![];
 
-    let current_node_count = node_registry.nodes.len() as u16;
-    let target_node_count = current_node_count + options.count.unwrap_or(1);
+    // Continue after the highest number ever handed out. Entries are never deleted from the
+    // registry, but a batch in which one install failed leaves a gap, so `nodes.len() + 1` can be
+    // the number (name, data directory, binary path) of an existing service.
+    let last_node_number = node_registry
+        .nodes
+        .iter()
+        .map(|node| node.number)
+        .max()
+        .unwrap_or(0);
+    let target_node_count = last_node_number + options.count.unwrap_or(1);
 
-    let mut node_number = current_node_count + 1;
+    let mut node_number = last_node_number + 1;
     let mut node_port = get_start_port_if_applicable(options.node_port);
     let mut metrics_port = get_start_port_if_applicable(options.metrics_port);
     let mut rpc_port = get_start_port_if_applicable(options.rpc_port);
